@@ -22,6 +22,10 @@ def check(ctx: Ctx) -> None:
     ctx.assume("trees in which an inline tag contains a block tag are outside C06 (no layout promised)")
     m = model(ctx)
     preconditions(ctx, m)
+    # str()/render() lay out the tagified copy: the copy must carry the whitespace flag of the original
+    from ..interp import Interp
+    from .c08 import tag_tagify_shape
+    tag_tagify_shape(ctx, Interp(ctx.prog), rule="C06.tagify", fields={"add_ws"})
     # defaults of the public signatures
     d_tl, d_tag = m.defaults["taglist"], m.defaults["tag"]
     ctx.check(d_tl.get("indent") == 0 and d_tl.get("eol") == "\n" and d_tl.get("add_ws") is True and d_tl.get("_escape_strings") is True,
